@@ -171,9 +171,21 @@ OpProblems(e, g, g2, evaluable) ==
     [] e.op = "blockify"    -> BlockifyProblems(e, g, g2)
     [] OTHER                -> <<"unknown-operation">>
 
+\* Graphs handed to append / insert / blockify are themselves results of (unlogged) edit histories.
+\* If such an input already violates the invariant, the line is attributed to that ("input-..."),
+\* and the operation is not judged on it.
+InputProblems(st) == LET p == ObsProblems(st, ToG(st)) IN [j \in 1..Len(p) |-> "input-" \o p[j]]
+RECURSIVE InputsOf(_,_)
+InputsOf(gs, j) == IF j > Len(gs) THEN <<>> ELSE InputProblems(gs[j]) \o InputsOf(gs, j + 1)
+InputProblemsOf(e) ==
+  CASE e.op \in {"append", "insert"} -> InputProblems(e.other)
+    [] e.op = "blockify"             -> InputsOf(e.graphs, 1)
+    [] OTHER                         -> <<>>
+
 \* all problems of one op line ("" = accepted)
 Judge(e, g) ==
   IF ~Has(e.post, "ok") THEN "state-projection-failed"
+  ELSE IF Len(InputProblemsOf(e)) > 0 THEN Join(InputProblemsOf(e))
   ELSE IF ~Clean(e.res) THEN "panic-or-timeout"
   ELSE LET g2 == TLCEval(ToG(e.post.ok))
            obs == TLCEval(ObsProblems(e.post.ok, g2))
